@@ -5,7 +5,7 @@ use crate::fw::*;
 use bio::io::fasta::IndexedReader;
 
 pub struct C12;
-const N_DIRECTED: u64 = 12;
+const N_DIRECTED: u64 = 14;
 
 struct FileSpec {
     file: Vec<u8>,
@@ -58,6 +58,32 @@ fn build_file(rng: &mut Rng, nrec: usize, maxlen: usize, crlf: bool, final_newli
         let lb = w.min(len);
         let lw = if len == 0 { 0 } else { lb + nl.len() };
         fai.push_str(&format!("{}\t{}\t{}\t{}\t{}\n", name, len, off, lb, lw));
+        layout.push((off, lb + nl.len()));
+        seqs.push(seq);
+        names.push(name);
+        widths.push(w);
+    }
+    FileSpec { file, fai, seqs, names, widths, crlf, layout }
+}
+
+/// Records given as (line width, length): used for files with more than 2^16 lines / offsets beyond 2^16.
+fn build_file_from(rng: &mut Rng, recs: &[(usize, usize)], crlf: bool) -> FileSpec {
+    let nl: &[u8] = if crlf { b"\r\n" } else { b"\n" };
+    let mut file = vec![];
+    let mut fai = String::new();
+    let (mut seqs, mut names, mut widths, mut layout) = (vec![], vec![], vec![], vec![]);
+    for (r, &(w, len)) in recs.iter().enumerate() {
+        let seq: Vec<u8> = (0..len).map(|i| b"ACGTacgtN"[(rng.usize(9) + i) % 9]).collect();
+        let name = format!("seq{}", r);
+        file.extend_from_slice(format!(">{} big {}", name, r).as_bytes());
+        file.extend_from_slice(nl);
+        let off = file.len();
+        for ch in seq.chunks(w) {
+            file.extend_from_slice(ch);
+            file.extend_from_slice(nl);
+        }
+        let lb = w.min(len);
+        fai.push_str(&format!("{}\t{}\t{}\t{}\t{}\n", name, len, off, lb, lb + nl.len()));
         layout.push((off, lb + nl.len()));
         seqs.push(seq);
         names.push(name);
@@ -374,6 +400,17 @@ impl Monitor for C12 {
         let maxlen = ctx.by_tier(300, 2000, 40_000);
         if g < N_DIRECTED {
             let crlf = g % 2 == 1;
+            if g >= 12 {
+                // more than 2^16 lines in one record, and records starting beyond offset 2^16 / 2^17
+                if ctx.tiny() {
+                    return;
+                }
+                let fs = build_file_from(rng, &[(1, 70_000), (60, 80_000), (7, 1000)], crlf);
+                ctx.count("files_with_more_than_65536_lines", 1);
+                self.history(ctx, rng, &fs, None, 30);
+                self.history(ctx, rng, &fs, Some(fs.file.len() - 500), 12);
+                return;
+            }
             let fs = match g {
                 0 | 1 => build_file(rng, 3, 700, crlf, true, false),
                 2 | 3 => build_file(rng, 2, 300, crlf, false, false), // no trailing newline
